@@ -300,13 +300,23 @@ func (a *IPAllocator) IsAllocated(prefix *net.IPNet) bool {
 	return a.bitmap.Bit(int(index)) == 1
 }
 
+// totalUint64 returns the number of prefixes in the pool, saturated at the
+// largest uint64: big.Int.Uint64 is undefined (0 in practice) for a pool of
+// 2^64 or more units, e.g. a /64 handing out /128 addresses.
+func (a *IPAllocator) totalUint64() uint64 {
+	if a.totalPrefixes.IsUint64() {
+		return a.totalPrefixes.Uint64()
+	}
+	return ^uint64(0)
+}
+
 // Stats returns allocation statistics.
 func (a *IPAllocator) Stats() (allocated, total uint64, utilization float64) {
 	a.mu.RLock()
 	defer a.mu.RUnlock()
 
 	alloc := a.allocatedCount.Uint64()
-	tot := a.totalPrefixes.Uint64()
+	tot := a.totalUint64()
 
 	var util float64
 	if tot > 0 {
@@ -352,7 +362,7 @@ func (a *IPAllocator) BaseNetwork() *net.IPNet {
 
 // findFreeIndex finds the first unallocated prefix index.
 func (a *IPAllocator) findFreeIndex() (uint64, error) {
-	total := a.totalPrefixes.Uint64()
+	total := a.totalUint64()
 
 	// Start from hint
 	start := a.nextFree.Uint64()
